@@ -45,14 +45,15 @@ Fixpoint list_eqb {A} (f : A -> A -> bool) (a b : list A) : bool :=
 (** *** the model on a case *)
 Definition env_of (c : case) (r : runrec) : env := Env (rr_faults r) (rr_cancel r) (c_lfe c).
 
-(** replay the runs (clock = t0 of each run); [None] as soon as a result or a call sequence differs *)
+(** replay the runs (clock = constantly t0 of each run: the harness skips cases whose outcome depends on
+    where in [t0,t1] a reading fell); [None] as soon as a result or a call sequence differs *)
 Fixpoint replay (c : case) (runs : list runrec) (s : store) : option store :=
   match runs with
   | [] => Some s
   | r :: rest =>
       let '(res, st') := match rr_fops r with
-                         | [] => clean (env_of c r) (rr_opts r) (rr_t0 r) s
-                         | fs => cleani (env_of c r) fs (rr_opts r) (rr_t0 r) s
+                         | [] => clean (env_of c r) (rr_opts r) (fun _ => rr_t0 r) s
+                         | fs => cleani (env_of c r) fs (rr_opts r) (fun _ => rr_t0 r) s
                          end in
       if N.eqb (result_code res) (rr_res r) &&
          list_eqb event_eqb (rev (lg st')) (proj (rr_tid r) (c_trace c))
@@ -296,7 +297,7 @@ Fixpoint explain_runs (c : case) (runs : list runrec) (s : store) : list Z :=
   match runs with
   | [] => []
   | r :: rest =>
-      let '(res, st') := cleani (env_of c r) (rr_fops r) (rr_opts r) (rr_t0 r) s in
+      let '(res, st') := cleani (env_of c r) (rr_fops r) (rr_opts r) (fun _ => rr_t0 r) s in
       (-1) :: Z.of_N (result_code res) ::
       flat_map (fun ev => [Z.of_N (opk_code (ev_kind ev)); Z.of_nat (length (ev_key ev)); if ev_ok ev then 1 else 0]) (rev (lg st'))
       ++ explain_runs c rest (sto st')
